@@ -93,8 +93,8 @@ CLAIMS = {
         note=BND + "Trusted: vf/ref_exec.py + vf/ref_coerce.py (specification transcriptions). The executor is outside the VC generator's subset."),
     "C08": dict(
         category="other", engine="tracecheck+rtc",
-        technique="map_value effect contract checked on BlockingRuntime.map_value (all paths) + run-time functional contract under every enumerated completion order of parked resolver tasks (stateless DFS over schedules), 4 configurations",
-        text="BlockingRuntime.map_value satisfies the map_value effect contract on every path (then once, else handler only for a matching exception). Bounded: BlockingExecutor, Executor on Blocking / AsyncIO / ThreadPool runtimes each satisfy the C04 contract for every completion order of "
+        technique="map_value effect contract checked on all three runtime implementations and gather_futures' ordering (Engine P, all paths, coroutines / done-callbacks sequentialised) + run-time functional contract under every enumerated completion order of parked resolver tasks (stateless DFS over schedules), 4 configurations",
+        text="BlockingRuntime.map_value, AsyncIORuntime.map_value and the thread pool's chain each satisfy the map_value effect contract on every path (then exactly once when the value arrives, else handler only for a matching failure, the target future settled exactly once); gather_futures keeps one slot per source value in source order and fails on the first failure (17 obligations). Bounded: BlockingExecutor, Executor on Blocking / AsyncIO / ThreadPool runtimes each satisfy the C04 contract for every completion order of "
              "the in-flight tasks (thread pool replaced by a parking executor incl. tasks that finish at submit time; asyncio resolvers gated by harness "
              "futures); unexpected exceptions surface unchanged; nothing stays pending once all tasks ran.",
         note=BND + "Callbacks are atomic (one thread): pre-emptive thread interleavings inside done-callbacks and fair termination are outside this family's reach."),
